@@ -77,6 +77,8 @@ def cases(tier, seed):
         d.update({"fields": ["temp", "volFrac", "density"] if mi % 3 != 2 else ["temp", "density"],
                   "payload": ["pos", "frac", "signed"] if mi % 3 != 2 else ["pos", "signed"], "layout": lay, "seed": seed})
         out.append({"desc": d, "cli": mi % 5 == 0 or big, "w": 20 if big else nlev})
+        if nlev >= 2 and not big and mi % 4 == 1:
+            out.append({"desc": d, "poison_covered": True, "w": 1})
     return out
 
 
@@ -106,10 +108,49 @@ def run_case(case, workdir):
     from amr_kitchen.pestle import volume_integral
     rec = Rec()
     desc = case["desc"]
-    path, ref = build(desc, workdir)
-    dh = h64(desc)
+    if case.get("poison_covered"):
+        # covered cells do not contribute: fill them with inf / -inf / NaN (field temp), the reference stays finite
+        from ..refmodel import refplot_from_desc, write_plotfile
+        ref = refplot_from_desc(desc)
+        ti = desc["fields"].index("temp")
+        for lv in range(ref.nlevels - 1):
+            for b, a in enumerate(ref.data[lv]):
+                m = ref.covered_mask(lv, b, ref.nlevels - 1)
+                vals = np.array([np.inf, -np.inf, np.nan])[np.arange(int(m.sum())) % 3]
+                a[..., ti][m] = vals
+        path = os.path.join(workdir, "plt00000")
+        write_plotfile(desc, path, ref=ref)
+    else:
+        path, ref = build(desc, workdir)
+    dh = h64([desc, bool(case.get("poison_covered"))])
     nlev = ref.nlevels
     has_vf = "volFrac" in desc["fields"]
+    if case.get("poison_covered"):
+        # limits below the finest level expose the poisoned cells legitimately: only the full-depth integral is demanded
+        exp, mag = ref.integral("temp", nlev - 1, None)
+        with vpool.controlled():
+            st, val = call(lambda: volume_integral(PlotfileCooker(path, ghost=True), "temp"))
+        rec.exe([dh, "poison_covered"], nontrivial=nlev > 1)
+        if st == "exc":
+            rec.fail("raised", {"covered_cells": "inf/-inf/nan"}, exc_text(val))
+        elif not (abs(float(val) - exp) <= 64 * EPS * mag + 1e-300):
+            rec.fail("integral", {"covered_cells": "inf/-inf/nan"}, "returned %r, sum over uncovered cells %r" % (float(val), exp))
+        return rec.result()
+    # history on ONE reader object: limits in a non-monotone order
+    if nlev >= 2:
+        with vpool.controlled():
+            pck1 = PlotfileCooker(path, ghost=True)
+            seq = [None, 0, nlev - 1, 0, None] if nlev == 2 else [None, 1, 0, nlev - 1, 1, None]
+            for k, lim in enumerate(seq):
+                L = nlev - 1 if lim is None else lim
+                exp, mag = ref.integral("temp", L, None)
+                st, val = call(lambda: volume_integral(pck1, "temp", limit_level=lim))
+                rec.exe([dh, "history", k], nontrivial=True)
+                sub = {"history": "volume_integral calls on one PlotfileCooker with limits %r" % (seq,), "call": k, "limit_level": lim}
+                if st == "exc":
+                    rec.fail("history_raised", sub, exc_text(val))
+                elif not (abs(float(val) - exp) <= 64 * EPS * mag + 1e-300):
+                    rec.fail("history_dependent", sub, "call %d returned %r, sum over uncovered cells %r" % (k, float(val), exp))
     for field in ("temp", "density"):
         for use_vf in (False, True):
             for limit in [None] + list(range(nlev)):
